@@ -135,6 +135,49 @@ def preprocess_orient_clause(cl, rng, n, replay):
                 return
 
 
+def derived_orientation_clause(cl, rng, n, replay):
+    """windows, copies and reloaded recordings carry the orientation of the recording they come from: re-orienting them afterwards lands
+    polarised motion on its true azimuth"""
+    import hvsrpy
+    import tempfile, os
+    d = tempfile.mkdtemp(prefix="c04_")
+    try:
+        for j in range(n):
+            N = 240
+            alpha, theta = float(rng.uniform(0, 360)), float(rng.choice([20., 135., 300., 45., 0.]))
+            m = rng.normal(0, 1, N)
+            Nn, E = m * np.cos(np.radians(alpha)), m * np.sin(np.radians(alpha))
+            th = np.radians(theta)
+            rec = rp.mk_record(Nn * np.cos(th) + E * np.sin(th), -Nn * np.sin(th) + E * np.cos(th), rng.normal(0, 1, N), 0.01, degrees_from_north=theta)
+            how = ["split", "copy", "save-load", "preprocess-no-orient"][j % 4]
+            if how == "split":
+                kids, offs = rec.split(0.6), [q * 60 for q in range(4)]
+            elif how == "copy":
+                kids, offs = [hvsrpy.SeismicRecording3C.from_seismic_recording_3c(rec)], [0]
+            elif how == "save-load":
+                fn = os.path.join(d, f"r{j}.json")
+                rec.save(fn)
+                kids, offs = [hvsrpy.SeismicRecording3C.load(fn)], [0]
+            else:
+                s = hvsrpy.HvsrPreProcessingSettings(orient_to_degrees_from_north=None, window_length_in_seconds=0.6, detrend=None)
+                kids, offs = hvsrpy.preprocess([rec], s), [q * 60 for q in range(4)]
+            cl.case((j, how, theta))
+            for kid, off in zip(kids, offs):
+                if abs(kid.degrees_from_north - theta) > 1e-9:
+                    cl.fail("hvsrpy.seismic_recording_3c.SeismicRecording3C." + ("split" if how in ("split", "preprocess-no-orient") else how.replace("-", "_")),
+                            f"{how}: derived recording reports degrees_from_north={kid.degrees_from_north}, its source is at {theta}", signature="derived:orientation-value", how=how)
+                    return
+                kid.orient_sensor_to(0.)
+                k = len(kid.ns.amplitude)
+                if not (close(kid.ns.amplitude, Nn[off:off + k], 1e-9, 1e-9) and close(kid.ew.amplitude, E[off:off + k], 1e-9, 1e-9)):
+                    cl.fail("hvsrpy.seismic_recording_3c.SeismicRecording3C.orient_sensor_to",
+                            f"{how} of a sensor deployed at {theta}, then oriented to north: the motion polarised at {alpha:.1f} deg is not recovered", signature="derived:orientation", how=how)
+                    return
+    finally:
+        import shutil
+        shutil.rmtree(d, ignore_errors=True)
+
+
 CLAUSES = [
     ("cross-check:orient_sensor_to == exact rotation (formula, vertical, composition, inverse, residues, polarisation)", "cross-check",
      "1-60 samples, 6 deployed x 7 target orientations incl. values outside [0,360)", "hvsrpy.seismic_recording_3c.SeismicRecording3C.orient_sensor_to", (150, 3000), orient_clause),
@@ -142,6 +185,8 @@ CLAUSES = [
      "windows of 80-200 samples, 5 azimuths, 5 azimuth sets, 5 percentiles, random orientation", "hvsrpy.processing.process", (10, 200), processing_clause),
     ("bounded:preprocessing orients every record (incl. target 0) before anything else", "bounded", "4 deployment angles x 6 targets x 2 preprocessing methods",
      "hvsrpy.preprocessing.hvsr_preprocess", (24, 240), preprocess_orient_clause),
+    ("bounded:windows, copies and reloaded recordings keep the orientation of their source (re-orienting them recovers polarised motion)", "bounded",
+     "5 deployment angles x split / copy / save-load / preprocess without orienting", "hvsrpy.seismic_recording_3c.SeismicRecording3C.split", (24, 240), derived_orientation_clause),
 ]
 
 if __name__ == "__main__":
